@@ -85,7 +85,8 @@ OUTPUT. For change k in {1, 2} create the directory %(out)s/%(pid)s-r%(rnd)s-k/ 
     tests do not notice, and the commands you ran with their results (demo on HEAD: pass; demo with patch: fail; suite with
     patch: 3x pass).
 Before you finish: `git -C %(wt)s checkout -- .` and remove any files you added to the worktree, so that it is clean at
-HEAD. Verify each delivered patch.diff applies to the clean worktree with `git apply --check`.
+HEAD. NEVER use `git stash` (all worktrees share one stash: other agents would pop your changes); to set a change aside use
+`git diff > /some/file; git checkout -- .` and `git apply /some/file`. Verify each delivered patch.diff applies to the clean worktree with `git apply --check`.
 If, while reading the code, you notice something in the UNCHANGED library that already violates the property, describe it
 in a file %(out)s/%(pid)s-r%(rnd)s-remarks.md (input, expected, observed) — that is valuable too.
 Your final message should be a three-line summary per change.""" % dict(
